@@ -73,7 +73,7 @@ fn case1<T: Elem>(case: u64, args: &Args, ev: &mut Ev) {
         &mut rng,
         &LinearOpts {
             extrapolate,
-            max_n: 14,
+            max_n: if case % 10 == 6 { 40 } else { 14 },
             max_lane_rank: 2,
             extreme_magnitudes: true,
             ..Default::default()
